@@ -125,6 +125,28 @@ func finalizeAndRespond(r responder.Responder, resp io.Reader, status int, req *
 }
 
 func (p *Proxy) handleRangeRequest(r responder.Responder, req *http.Request, cached *cache.Entry[cachedRequestInfo], key cache.CacheKey, clientHd *headers.HeaderDirectives) error {
+	// A validator that does not match the stored response means "ignore the Range": decide that before the
+	// range itself is looked at, so that an unsatisfiable range behind a stale If-Range gets the full 200 too.
+	if clientHd.IfRange.IsPresent() {
+		ifRange := clientHd.IfRange.Value()
+		if ifRange.IsLeft() {
+			// IfRange is ETag
+			etagIfRange := ifRange.ForceUnwrapLeft()
+			if etagIfRange != cached.Metadata.Object.ETag {
+				slog.Info("If-Range does not match cached ETag. Sending full 200 response.", "url", req.URL, "key", key)
+				return ErrIfRangeMismatch
+			}
+		} else {
+			// IfRange is Time
+			timeIfRange := ifRange.ForceUnwrapRight()
+			if timeIfRange.Before(cached.Metadata.Object.LastModified) {
+				slog.Info("If-Range does not match cached Last-Modified. Sending full 200 response.", "url", req.URL, "key", key)
+				return ErrIfRangeMismatch
+			}
+		}
+
+	}
+
 	rangeHeader := clientHd.Range.Value()
 	start, end, err := rangeHeader.SliceSize(cached.Metadata.Size)
 	if err != nil {
@@ -154,26 +176,6 @@ func (p *Proxy) handleRangeRequest(r responder.Responder, req *http.Request, cac
 
 		r.SetHeaders(header)
 		return finalizeAndRespond(r, data, status, req)
-	}
-
-	if clientHd.IfRange.IsPresent() {
-		ifRange := clientHd.IfRange.Value()
-		if ifRange.IsLeft() {
-			// IfRange is ETag
-			etagIfRange := ifRange.ForceUnwrapLeft()
-			if etagIfRange != cached.Metadata.Object.ETag {
-				slog.Info("If-Range does not match cached ETag. Sending full 200 response.", "url", req.URL, "key", key)
-				return ErrIfRangeMismatch
-			}
-		} else {
-			// IfRange is Time
-			timeIfRange := ifRange.ForceUnwrapRight()
-			if timeIfRange.Before(cached.Metadata.Object.LastModified) {
-				slog.Info("If-Range does not match cached Last-Modified. Sending full 200 response.", "url", req.URL, "key", key)
-				return ErrIfRangeMismatch
-			}
-		}
-
 	}
 
 	length := end - start + 1
